@@ -27,8 +27,12 @@ def init():
     logging.disable(logging.CRITICAL)
     hs.pauseTiming()
     hs.restartTiming()
-    inst = ntcore.NetworkTableInstance.getDefault()
-    # no network traffic is wanted; local publish/subscribe works without a server
+    # The DriverStation singleton publishes /FMSInfo/* through publishers it creates once per process.  They do not
+    # survive NetworkTableInstance._reset(), but ntcore hands the same handle indices out again afterwards, so the
+    # DriverStation's next write (e.g. FMSControlData = 51 on entering autonomous with the FMS attached) lands in
+    # whatever publisher of the case under test got that index.  Make the singleton take the lowest indices now;
+    # reserve_low_handles() then parks dummies on them after every reset.
+    wpilib.DriverStation.refreshData()
     _inited = True
 
 
@@ -55,9 +59,31 @@ def nt():
     return ntcore.NetworkTableInstance.getDefault()
 
 
+_reserved = []
+
+
+def reserve_low_handles(n=32):
+    """park dummy publishers on the handle indices that process-lifetime singletons (DriverStation's FMSInfo
+    sender, see init()) still write to after a NetworkTables reset"""
+    inst = ntcore.NetworkTableInstance.getDefault()
+    for i in range(n):
+        _reserved.append(inst.getRawTopic(f"/vf_reserved/{i}").publish("vf-reserved"))
+
+
+def _release_reserved():
+    for p in _reserved:
+        try:
+            p.close()
+        except Exception:
+            pass
+    del _reserved[:]
+
+
 def nt_reset():
     inst = ntcore.NetworkTableInstance.getDefault()
+    _release_reserved()
     inst._reset()
+    reserve_low_handles()
 
 
 def full_reset():
@@ -65,7 +91,9 @@ def full_reset():
     wpilib._wpilib._clearSmartDashboardData()
     inst = ntcore.NetworkTableInstance.getDefault()
     inst.stopServer()
+    _release_reserved()
     inst._reset()
+    reserve_low_handles()
     wpilib.simulation._simulation._resetWpilibSimulationData()
     hs.resetAllSimData()
     hs.resetGlobalHandles()
